@@ -249,6 +249,14 @@ def run_lints(prog, rep, reach, tag, only_rules=None):
             if d is not None:
                 defaults.append((arg.arg, d))
         for pname, d in defaults:
+            if isinstance(d, ast.Call) and U(d.func).split(".")[-1] in prog.classes_by_name and U(d.func) not in ("list", "dict", "set"):
+                # an object of a repository class as default value is created once, when the function is defined, and shared by all calls
+                used = [c for c in calls_in(fn) if isinstance(c.func, ast.Attribute) and isinstance(c.func.value, ast.Name) and c.func.value.id == pname]
+                stores = [n_ for n_ in walk_no_defs(fn) if isinstance(n_, ast.Attribute) and isinstance(n_.ctx, ast.Store) and isinstance(n_.value, ast.Name) and n_.value.id == pname]
+                r4.add(f"default|{f.key}:{pname}", not used and not stores, f"default {pname}={U(d)}: one object shared by every call; " +
+                       ("it is only read" if not used and not stores else f"methods are called on it / it is written ({U(used[0].func) if used else U(stores[0])}): its state "
+                        "is carried from one call to the next"), where(d))
+                continue
             if isinstance(d, (ast.List, ast.Dict, ast.Set)) or (isinstance(d, ast.Call) and U(d.func) in ("list", "dict", "set")):
                 muts = mutations_of(fn, pname)
                 escapes = [s for s in iter_stmts(fn.body) if isinstance(s, ast.Assign) and isinstance(s.value, ast.Name)
@@ -334,6 +342,17 @@ def run_lints(prog, rep, reach, tag, only_rules=None):
             if rel == "run.py":
                 continue
             for st in mod.tree.body:
+                if isinstance(st, (ast.Assign, ast.AnnAssign)) and isinstance(st.value, ast.GeneratorExp):
+                    # a generator expression at module level is an iterator that lives as long as the process: whatever consumes it at run time
+                    # leaves less for the next run
+                    for t_ in (st.targets if isinstance(st, ast.Assign) else [st.target]):
+                        if isinstance(t_, ast.Name):
+                            users = [(k_, n_) for k_, f_ in prog.funcs.items() if k_ in reach and t_.id in _func_src(f_)
+                                     for n_ in walk_no_defs(f_.node) if isinstance(n_, ast.Name) and n_.id == t_.id and isinstance(n_.ctx, ast.Load)]
+                            r3.add(f"shared|{rel}:{t_.id}", not users, f"module-level generator {t_.id}: " + ("not used at run time" if not users else
+                                   f"consumed at run time in {users[0][0]} (line {users[0][1].lineno}): its position is carried from one run of the process to the next"),
+                                   f"pdb2pqr/{rel}:{st.lineno}")
+                    continue
                 if not (isinstance(st, (ast.Assign, ast.AnnAssign)) and isinstance(st.value, ast.Call)):
                     continue
                 ctor = U(st.value.func)
